@@ -1274,7 +1274,7 @@ func (f *c23Feas) base() (bool, string) {
 	for _, fn := range prodFuncs(w) {
 		for _, call := range callsNamed(w, fn, fxActionExecute) {
 			nExec++
-			if fn != se && fn != rec && f.actionOf(fn) == nil {
+			if fn != se && fn != rec && f.actionOf(fn) == nil && !c23OnlyCalledBy(w, fn, rec) {
 				return false, fmt.Sprintf("Action.Execute is also invoked by %s (%s)", w.FuncName(fn), w.Pos(call.Pos()))
 			}
 		}
@@ -1993,4 +1993,28 @@ func c23SinkText(s *c23Sink) string {
 		return "the public opening parameter " + s.field
 	}
 	return s.kind
+}
+
+// c23OnlyCalledBy: fn is an unexported helper whose only production call sites
+// are static calls inside `only` (e.g. a locked section split out of Recover).
+func c23OnlyCalledBy(w *an.World, fn, only *ssa.Function) bool {
+	n := 0
+	for _, g := range prodFuncs(w) {
+		for _, call := range an.Calls(g) {
+			if call.Common().StaticCallee() != fn {
+				// a reference as a value (closure / method value) would escape this test
+				for _, a := range call.Common().Args {
+					if a == ssa.Value(fn) {
+						return false
+					}
+				}
+				continue
+			}
+			if g != only {
+				return false
+			}
+			n++
+		}
+	}
+	return n > 0
 }
